@@ -539,6 +539,9 @@ func (ck *MkAssignChecker) checkRightCategory() {
 	}
 
 	categories := mkline.ValueFields(mkline.Value())
+	if len(categories) == 0 {
+		return
+	}
 	primary := categories[0]
 	dir := G.Pkgsrc.Rel(mkline.Filename()).Dir().Dir().Base()
 
